@@ -1,6 +1,6 @@
 #!/usr/bin/env python3
 """API-level replay: a sequence of sqfvm_call on ONE instance of libsqfvm.so built from the current tree.
-usage: sequence.py <libsqfvm.so> <max runtime seconds> <type:code>...   prints one line per call: return code and the log messages"""
+usage: sequence.py <libsqfvm.so> <max runtime seconds> <type:code | sleep:seconds>...   prints one line per call: return code and the log messages"""
 import ctypes, sys
 lib = ctypes.CDLL(sys.argv[1])
 CB = ctypes.CFUNCTYPE(None, ctypes.c_void_p, ctypes.c_void_p, ctypes.c_int32, ctypes.POINTER(ctypes.c_char), ctypes.c_uint32)
@@ -14,8 +14,11 @@ sink=[]
 def on_log(user, call, severity, msg, length):
     sink.append((severity, ctypes.string_at(msg, length).decode('utf-8','replace')))
 vm = lib.sqfvm_create_instance(None, on_log, float(sys.argv[2]))
+import time
 for spec in sys.argv[3:]:
     t,_,code = spec.partition(':'); del sink[:]
+    if t == 'sleep':
+        time.sleep(float(code)); print(repr(spec), '-> 0 []'); continue
     raw=code.encode(); rc = lib.sqfvm_call(vm, None, t.encode(), raw, len(raw))
     print(repr(spec), '->', rc, sink)
 lib.sqfvm_destroy_instance(vm)
